@@ -463,6 +463,64 @@ func init() {
 			var k tkn20.AttributeKey
 			return Result{Accepted: k.UnmarshalBinary(in) == nil}
 		}})
+	// decode, then use: a stored key with a damaged byte that the decoder lets through is used
+	// for what it is for; the damage may make the operation fail, not crash
+	Register(&Entry{Name: "tkn20.AttributeKey.UnmarshalBinary+Decrypt", Seeds: 1, Cost: 400, Aware: []func([]byte, int) []byte{blsSlotCompress, tknMatrixDims, tknFlagBytes}, AwareN: 96,
+		Valid: func(seed uint64) []byte { tknSetup(); b, _ := tknCache.ak.MarshalBinary(); return b },
+		Call: func(in []byte) Result {
+			tknSetup()
+			var k tkn20.AttributeKey
+			if k.UnmarshalBinary(in) != nil {
+				return Result{}
+			}
+			k.Equal(tknCache.ak)
+			tknCache.ak.Equal(&k)
+			_, err := k.Decrypt(tknCache.ct)
+			return Result{Accepted: err == nil}
+		}})
+	Register(&Entry{Name: "tkn20.PublicKey.UnmarshalBinary+Encrypt", Seeds: 1, Cost: 400, Aware: []func([]byte, int) []byte{tknMatrixDims}, AwareN: 96,
+		Valid: func(seed uint64) []byte { tknSetup(); b, _ := tknCache.pk.MarshalBinary(); return b },
+		Call: func(in []byte) Result {
+			tknSetup()
+			var pk tkn20.PublicKey
+			if pk.UnmarshalBinary(in) != nil {
+				return Result{}
+			}
+			pk.Equal(tknCache.pk)
+			var pol tkn20.Policy
+			if pol.FromString("country: nl and not role: guest") != nil {
+				panic("HARNESS: policy")
+			}
+			_, err := pk.Encrypt(core.NewStream(5), pol, []byte("m"))
+			pk.MarshalBinary()
+			return Result{Accepted: err == nil}
+		}})
+	Register(&Entry{Name: "tkn20.SystemSecretKey.UnmarshalBinary+KeyGen", Seeds: 1, Cost: 400, Aware: []func([]byte, int) []byte{tknMatrixDims}, AwareN: 96,
+		Valid: func(seed uint64) []byte { tknSetup(); b, _ := tknCache.msk.MarshalBinary(); return b },
+		Call: func(in []byte) Result {
+			tknSetup()
+			var k tkn20.SystemSecretKey
+			if k.UnmarshalBinary(in) != nil {
+				return Result{}
+			}
+			k.Equal(tknCache.msk)
+			var attrs tkn20.Attributes
+			attrs.FromMap(map[string]string{"country": "nl"})
+			_, err := k.KeyGen(core.NewStream(6), attrs)
+			return Result{Accepted: err == nil}
+		}})
+	Register(&Entry{Name: "tkn20.Policy.ExtractFromCiphertext+Encrypt", Seeds: 1, Cost: 400, Aware: []func([]byte, int) []byte{tknFormulaEdge, tknGateClass}, AwareN: 64,
+		Valid: func(seed uint64) []byte { tknSetup(); return tknCache.ct },
+		Call: func(in []byte) Result {
+			tknSetup()
+			var p tkn20.Policy
+			if p.ExtractFromCiphertext(in) != nil {
+				return Result{}
+			}
+			_ = p.String()
+			_, err := tknCache.pk.Encrypt(core.NewStream(7), p, []byte("reply"))
+			return Result{Accepted: err == nil}
+		}})
 	Register(&Entry{Name: "tkn20.AttributeKey.Decrypt(ciphertext)", Seeds: 1, Cost: 400,
 		Valid: func(seed uint64) []byte { tknSetup(); return tknCache.ct },
 		Call: func(in []byte) Result {
@@ -598,6 +656,100 @@ func blsSlotCompress(v []byte, a int) []byte {
 	}
 	v[slots[a%len(slots)]] |= 0x80
 	return v
+}
+
+// tknMatrixDims finds matrix headers in a tkn20 key encoding (two 16-bit little-endian
+// dimensions, each 1..8, followed by at least rows*cols*32 bytes) and rewrites the a-th one:
+// no rows, a row / column more or fewer, rows and columns swapped, or the product kept with
+// other factors (4x2 -> 8x1, 2x4, 1x8). The entries are left as they are.
+func tknMatrixDims(v []byte, a int) []byte {
+	var offs []int
+	for off := 0; off+4 <= len(v); off++ {
+		r, c := int(v[off])|int(v[off+1])<<8, int(v[off+2])|int(v[off+3])<<8
+		if r >= 1 && r <= 8 && c >= 1 && c <= 8 && off+4+r*c*32 <= len(v) {
+			offs = append(offs, off)
+		}
+	}
+	if len(offs) == 0 {
+		return nil
+	}
+	if a < 0 {
+		a = -a
+	}
+	off := offs[(a/8)%len(offs)]
+	r, c := int(v[off]), int(v[off+2])
+	nr, nc := r, c
+	switch a % 8 {
+	case 0:
+		nr, nc = 0, 0
+	case 1:
+		nr = r + 1
+	case 2:
+		nc = c + 1
+	case 3:
+		nr, nc = c, r
+	case 4:
+		nr, nc = r*c, 1
+	case 5:
+		nr, nc = 1, r*c
+	case 6:
+		nr = r - 1
+	case 7:
+		nc = c - 1
+	}
+	if nr == r && nc == c {
+		return nil
+	}
+	v[off], v[off+1], v[off+2], v[off+3] = byte(nr), 0, byte(nc), 0
+	return v
+}
+
+// tknFlagBytes flips the a-th byte of the encoding that holds 0 or 1 (boolean flags such as
+// an attribute's wildcard marker) and the byte after a label's length prefix.
+func tknFlagBytes(v []byte, a int) []byte {
+	var offs []int
+	for i, b := range v {
+		if b <= 1 {
+			offs = append(offs, i)
+		}
+	}
+	if len(offs) == 0 {
+		return nil
+	}
+	if a < 0 {
+		a = -a
+	}
+	v[offs[a%len(offs)]] ^= 1
+	return v
+}
+
+// tknGateClass sets the class byte of a gate of the formula inside a ciphertext to a value
+// that is neither AND nor OR.
+func tknGateClass(v []byte, a int) []byte {
+	le := func(b []byte) int { return int(b[0]) | int(b[1])<<8 }
+	for off := 0; off+2 <= len(v); off++ {
+		n := le(v[off:])
+		if n < 1 || n > 64 || off+2+7*n > len(v) {
+			continue
+		}
+		ok := true
+		for i := 0; i < n && ok; i++ {
+			g := v[off+2+7*i:]
+			in0, in1, out := le(g[1:]), le(g[3:]), le(g[5:])
+			if g[0] > 1 || in0 > 2*n-1 || in1 > 2*n-1 || out < n+1 || out > 2*n || in0 == in1 {
+				ok = false
+			}
+		}
+		if !ok {
+			continue
+		}
+		if a < 0 {
+			a = -a
+		}
+		v[off+2+7*(a%n)] = []byte{2, 3, 5, 0x7f, 0x80, 0xff}[(a/n)%6]
+		return v
+	}
+	return nil
 }
 
 // refitSizes: field sizes worth trying, dense around small powers of two and their neighbours.
